@@ -14,7 +14,7 @@ RULE = ("exception codes 0..255 x {read, write, write-multi} x {udp-rtu, tcp} x 
         "(transport, keep-alive, command kind, code, j, delay, entry) tuples")
 ASSUMPTIONS = ["reason texts are the standard Modbus exception names (table copied from the specification into refcodec)",
                "virtual clock: 'at once' means zero virtual time between delivery of the exception frame and the return"]
-MUST = ["public_entry_dt", "named_setting_write", "two_tcp_objects_overlapping", "command_for_another_unit", "tcp_exception_with_wrong_mbap_length", "second_request_rejected", "rejected_after_lone_fragment", "rejected_udp", "rejected_tcp", "after_drops", "delayed_exception", "unknown_code", "public_entry"]
+MUST = ["family_level_rejection", "rejected_after_a_request_served_on_retransmission", "public_entry_dt", "named_setting_write", "two_tcp_objects_overlapping", "command_for_another_unit", "tcp_exception_with_wrong_mbap_length", "second_request_rejected", "rejected_after_lone_fragment", "rejected_udp", "rejected_tcp", "after_drops", "delayed_exception", "unknown_code", "public_entry"]
 EXHAUSTIVE = {"quick": True, "thorough": True}
 EPS = 1e-6
 
@@ -47,6 +47,19 @@ def scenario_second(transport, ka, T, R, kind, code, gap, delay):
     # gap None: request B is issued straight after A's rejection without yielding to the loop (as the ET/DT fallbacks do)
     sc["tasks"] = [{"start": 0.0, "steps": [first] + ([["sleep", gap]] if gap is not None else []) + [sc["tasks"][0]["steps"][0]]}]
     sc["second"] = True
+    return sc
+
+
+def scenario_after_retransmission(transport, ka, T, R, kind, code):
+    """request A loses its first transmission and is served on the retransmission; request B on the same object is then answered by an
+    exception frame at once: B is rejected at once (nothing learnt from A's retransmission may delay or drop B's answer)"""
+    sc = scenario(transport, ka, T, R, kind, code, 0, 0.0, "protocol")
+    first = {"read": ["read", 399, 1], "write": ["write", 399, 5], "multi": ["multi", 399, "0001"]}[kind]
+    sc["by_reg"] = {399: ["drop", "now"], 400: [["exc", code, 0.0]]}
+    sc["script"] = []
+    sc["tasks"] = [{"start": 0.0, "steps": [first, sc["tasks"][0]["steps"][0]]}]
+    sc["second"] = True
+    sc["after_retx"] = True
     return sc
 
 
@@ -117,6 +130,8 @@ def check_run(sc, run, part: Part):
             part.count("named_setting_write")
         if sc.get("second"):
             part.count("second_request_rejected")
+        if sc.get("after_retx"):
+            part.count("rejected_after_a_request_served_on_retransmission")
         if sc.get("frag_first"):
             part.count("rejected_after_lone_fragment")
         if sc.get("mbap"):
@@ -181,6 +196,39 @@ def two_objects_part(part):
                                      {"two_objects": True})
 
 
+def family_level_part(part):
+    """a poll of an ET model with extended meter blocks: the 125-register meter read is refused with ILLEGAL DATA ADDRESS (the documented
+    fallback follows) and the 58-register read of the SAME poll is answered with another exception code: that rejection must surface from
+    read_runtime_data() with its reason"""
+    from .. import env, models
+    g = env.goodwe()
+    for port in (8899, 502):
+        for code in (6, 3, 4, 200):
+            sim = models.et_sim(tag="ETU", rated=20000, refused_blocks=["meter_ext2"])
+            sim.exc_map[(3, 36000, 58)] = code
+            res = {}
+
+            async def flow(loop):
+                inv = g.ET("inv0", port, 0, 1, 0)
+                await inv.read_device_info()
+                t0 = loop.time()
+                try:
+                    await inv.read_runtime_data()
+                    res["out"] = ("returned", "")
+                except Exception as e:      # noqa
+                    res["out"] = (type(e).__name__, getattr(e, "message", str(e)))
+                res["dt"] = loop.time() - t0
+            run = engine.run_custom({("inv0", port): sim}, flow, vtime_cap=600, tx_cap=600)
+            part.evaluations += 1
+            part.count("family_level_rejection")
+            tr = "udp" if port == 8899 else "tcp"
+            if run.stop or run.error is not None or res.get("out") != ("RequestRejectedException", rc.reason(code)):
+                part.violate(f"C08/{tr}/not-rejected",
+                             f"ET.read_runtime_data(): meter read 36000x125 refused (code 2), the fallback read 36000x58 answered with exception {code}: "
+                             f"ended {res.get('out')} {run.stop or ''} instead of RequestRejectedException({rc.reason(code)!r})", {"family_level": True})
+            part.see(f"family-level|{port}|{code}")
+
+
 def plan(tier, seed):
     specs = []
     for transport in ("udp", "tcp"):
@@ -196,6 +244,7 @@ def run_shard(spec):
     R = spec["R"]
     if spec["transport"] == "tcp" and spec["kind"] == "read" and spec["ka"]:
         two_objects_part(part)
+        family_level_part(part)
     for T in spec["Ts"]:
         for code in range(256):
             for j in range(R + 1):
@@ -214,6 +263,7 @@ def run_shard(spec):
             if code % 16 == 2 or code in (1, 3, 4, 6):
                 for gap, delay in ((0.5 * T, 0.8 * T), (0.25 * T, 0.9 * T), (None, 0.5 * T), (None, 0.0)):
                     run_case(scenario_second(spec["transport"], spec["ka"], T, R, spec["kind"], code, gap, delay), part)
+                run_case(scenario_after_retransmission(spec["transport"], spec["ka"], T, R, spec["kind"], code), part)
                 if spec["transport"] == "tcp":
                     for mlen in (6, 11, 0, 2, 4, 255):
                         for j in (0, R):
@@ -227,6 +277,9 @@ def run_shard(spec):
 
 def replay(case):
     part = Part()
+    if case.get("family_level"):
+        family_level_part(part)
+        return [{"key": v["key"], "msg": v["msg"]} for v in part.violations]
     if case.get("two_objects"):
         two_objects_part(part)
         return [{"key": v["key"], "msg": v["msg"]} for v in part.violations]
